@@ -76,5 +76,30 @@ func TestVerifBounded_IncludePathForms(t *testing.T) {
 			}
 		}
 	}
+	// through the loader: an include directive in glob form (the dispatch on IsGlobPattern) loads exactly the matching files
+	for _, g := range []struct{ inc, want string }{
+		{"*.journal", "a.journal,b.journal,~c.journal"},
+		{"sub/?.journal", "sub/d.journal"},
+		{"[ab].journal", "a.journal,b.journal"},
+		{"<->/d.journal", "sub/d.journal"},
+		{"<->/*.journal", "a.journal,b.journal,sub/d.journal,~c.journal"},
+		{"a.journal", "a.journal"},
+	} {
+		cases++
+		base := filepath.Join(ledger, "main.journal")
+		res, errs := NewLoader().LoadFromContent(base, "include "+g.inc+"\n")
+		var names []string
+		if res != nil {
+			for _, f := range res.FileOrder {
+				abs, _ := filepath.Abs(f)
+				names = append(names, strings.TrimPrefix(filepath.Clean(abs), ledger+"/"))
+			}
+		}
+		sort.Strings(names)
+		if len(errs) != 0 || strings.Join(names, ",") != g.want {
+			fmt.Printf("BOUNDED-FAIL 'include %s' in main.journal loads [%s] with errors %v, the files it names are [%s]\n", g.inc, strings.Join(names, ","), errs, g.want)
+			return
+		}
+	}
 	fmt.Printf("BOUNDED-OK cases=%d\n", cases)
 }
